@@ -346,3 +346,47 @@ def write_evidence(prop, tier, seed, spec, results, violations, known_hits, inco
     os.makedirs(os.path.join(VERIF, "evidence"), exist_ok=True)
     with open(os.path.join(VERIF, "evidence", f"{prop}.json"), "w") as f:
         json.dump(ev, f, indent=1)
+
+
+def setup(registry):
+    """MANIFEST.setup_cmd: pre-compile third-party dependencies for both engines (cached seed target dirs)."""
+    scratch = os.path.join(SCRATCH_ROOT, f"setup-{os.getpid()}")
+    try:
+        for engine in ("x", "k"):
+            ws = build_workspace(engine, os.path.join(scratch, engine))
+            seed_target(engine, ws, scratch)
+        log("[setup] done")
+        return 0
+    except Exception as e:  # noqa
+        log("[setup] FAILED:", e)
+        return 1
+    finally:
+        shutil.rmtree(scratch, ignore_errors=True)
+
+
+def replay_file(path, registry):
+    """Re-run a recorded counterexample natively against /repo's current tree.
+    exit 1 = still fails (violation reproduces), 0 = passes now, 2 = could not run."""
+    rep = json.load(open(path))
+    if not rep.get("playback_test"):
+        log("no playback test recorded in", path)
+        return 2
+    scratch = os.path.join(SCRATCH_ROOT, f"replay-{os.getpid()}")
+    try:
+        engine = rep["engine"]
+        ws = build_workspace(engine, os.path.join(scratch, engine))
+        seed = seed_target(engine, ws, scratch)
+        td = os.path.join(scratch, "target")
+        sh(["cp", "-r", seed, td])
+        inject_playback(ws, rep["harness"], rep["playback_test"])
+        ok, detail = native_replay(ws, td, rep["harness"], {"code": rep["playback_test"]}, os.path.join(scratch, "replay.log"))
+        log(detail[-1200:] if detail else "")
+        if ok is True:
+            log(f"VIOLATION property={rep['property']} replay={path}")
+            return 1
+        if ok is False:
+            log("replay passes on the current tree")
+            return 0
+        return 2
+    finally:
+        shutil.rmtree(scratch, ignore_errors=True)
